@@ -342,7 +342,11 @@ func (w *response) finishRequest() {
 	// Close the body, unless we're about to close the whole TCP connection
 	// anyway.
 	if !w.closeAfterReply {
-		w.req.Body.Close()
+		if err := w.req.Body.Close(); err != nil {
+			// The unread body could not be skipped: do not try to find
+			// the next request on this connection.
+			w.closeAfterReply = true
+		}
 	}
 	if w.req.MultipartForm != nil {
 		w.req.MultipartForm.RemoveAll()
